@@ -51,6 +51,11 @@ def Pc.gate : Pc → String
   | .walFailed _ => "wal_failed" | .pubDequeued .. => "dequeued" | .pubVisible .. => "visible_set"
   | .afterPublish .. => "after_publish" | .waiting _ => "idle"
 
+/-- who currently owns a flow-control permit: a committer between `acquire` and the end of its
+critical section, or a batch object (ghost state for the proofs; behaviour only uses `permits`) -/
+inductive Own | thr (i : Nat) | bat (f : Nat)
+deriving Repr, DecidableEq
+
 structure Thread where
   pc : Pc := .ready
   req : CommitReq := {}
@@ -68,6 +73,9 @@ structure PState where
   mem : List Nat := []                       -- seqs applied to the memtable
   completed : List (Nat × CRes) := []        -- batch first ↦ result sent on its oneshot (first send wins)
   batches : List (Nat × Nat × Bool) := []    -- (first, count, failed) of every allocated batch, newest first
+  owners : List Own := []                    -- ghost: current permit owners
+  returned : List Nat := []                  -- batches whose `commit()` call has returned
+  dropped : List Nat := []                   -- batches the publisher has dequeued, completed and dropped
   threads : List Thread := []
   panicked : Bool := false
 deriving Repr
@@ -88,15 +96,30 @@ def markApplied (s : PState) (first : Nat) : PState :=
 def markFailed (s : PState) (first : Nat) : PState :=
   { s with batches := s.batches.map (fun b => if b.1 == first then (b.1, b.2.1, true) else b) }
 
-/-- a call returns: record the result, give the permit back -/
-def finish (s : PState) (i : Nat) (t : Thread) (r : CRes) : PState :=
-  { (s.setThread i { t with pc := .ready, results := r :: t.results }) with permits := s.permits + 1 }
+/-- a call returns: record the result.  The permit is owned by the batch object (the `fix:` commit):
+it is released when the call has returned *and* the publisher has dropped the dequeued batch;
+a call that never enqueued a batch (`first = none`) releases it at once. -/
+def release (s : PState) (o : Own) : PState :=
+  if s.owners.contains o then { s with permits := s.permits + 1, owners := s.owners.erase o } else s
+
+def finish (s : PState) (i : Nat) (t : Thread) (r : CRes) (first : Option Nat := none) : PState :=
+  let s := s.setThread i { t with pc := .ready, results := r :: t.results }
+  match first with
+  | none => s.release (.thr i)
+  | some f =>
+    if s.dropped.contains f then s.release (.bat f)
+    else { s with returned := f :: s.returned }
+
+/-- the publisher drops its reference to a dequeued batch (after `complete(Ok)`) -/
+def dropBatch (s : PState) (f : Nat) : PState :=
+  if s.returned.contains f then s.release (.bat f)
+  else { s with dropped := f :: s.dropped }
 
 /-- the publish loop, from its top: dequeue the head if applied, else leave the loop -/
 def publishTop (s : PState) (i : Nat) (t : Thread) (first : Nat) (failed : FK) : PState :=
   let leave (s : PState) : PState :=
     -- the WAL-failure path returns right after `publish()`; the main path reaches [commit.after_publish]
-    if failed == .wal then s.finish i t .errWal else s.setThread i { t with pc := .afterPublish first failed }
+    if failed == .wal then s.finish i t .errWal (some first) else s.setThread i { t with pc := .afterPublish first failed }
   match s.queue with
   | b :: rest =>
     if b.applied then { (s.setThread i { t with pc := .pubDequeued b first failed }) with queue := rest }
@@ -114,7 +137,9 @@ def stepThread (s : PState) (i : Nat) : PState :=
     | .begun start =>
       -- `if batch.is_empty() { return Ok(()) }` comes before the permit
       if t.req.keys.isEmpty then s.setThread i { t with pc := .ready, results := .ok :: t.results }
-      else if s.permits > 0 then { (s.setThread i { t with pc := .havePermit start }) with permits := s.permits - 1 }
+      else if s.permits > 0 then
+        { (s.setThread i { t with pc := .havePermit start }) with permits := s.permits - 1,
+                                                                    owners := .thr i :: s.owners }
       else s
     | .havePermit start =>
       -- critical section under write_mutex
@@ -129,7 +154,8 @@ def stepThread (s : PState) (i : Nat) : PState :=
         else
           let s := { s with logSeq := s.logSeq + count, oracle := o,
                             queue := s.queue ++ [(⟨first, count, false⟩ : QB)],
-                            batches := (first, count, false) :: s.batches }
+                            batches := (first, count, false) :: s.batches,
+                            owners := .bat first :: s.owners.erase (.thr i) }
           if t.req.failWal then
             let s := { s with oracle := s.oracle.rollback t.req.keys (first + count - 1) }
             let s := (s.complete first .errWal).markApplied first |>.markFailed first
@@ -152,18 +178,18 @@ def stepThread (s : PState) (i : Nat) : PState :=
     | .pubDequeued b first failed =>
       { (s.setThread i { t with pc := .pubVisible b first failed }) with visible := max s.visible b.last }
     | .pubVisible b first failed =>
-      let s := (s.complete b.first .ok)
+      let s := (s.complete b.first .ok).dropBatch b.first
       s.publishTop i t first failed
     | .afterPublish first failed =>
-      if failed != .none then s.finish i t .errApply
+      if failed != .none then s.finish i t .errApply (some first)
       else
         match s.completedRes first with
-        | some r => s.finish i t r
+        | some r => s.finish i t r (some first)
         | none => s.setThread i { t with pc := .waiting first }
     | .waiting first =>
       -- the oneshot has fired: the call returns (the runtime wakes the task whenever it pleases)
       match s.completedRes first with
-      | some r => s.finish i t r
+      | some r => s.finish i t r (some first)
       | none => s
 
 /-- thread `i` begins a transaction (loads the horizon) for its next commit -/
